@@ -294,6 +294,19 @@ func runC06(c *Ctx) error {
 				ip   netip.Addr
 			}{{0, senders[0].id.IP}}})
 	}
+	// several services of one router: friends-only beside friends + a listed non-friend, a listed
+	// address beside a public service, two "for" lists
+	x2, x3 := senders[2].id.IP, senders[3].id.IP
+	alice := []struct {
+		name int
+		ip   netip.Addr
+	}{{0, senders[0].id.IP}}
+	corners = append(corners,
+		&c06Cfg{friends: alice, svcs: []c06Svc{{scheme: 0, port: 22, friends: true}, {scheme: 0, port: 8080, friends: true, forEnt: []c06For{{ip: x2, raw: x2.String()}}}}},
+		&c06Cfg{friends: alice, svcs: []c06Svc{{scheme: 0, port: 8080, friends: true, forEnt: []c06For{{ip: x2, raw: x2.String()}}}, {scheme: 1, port: 53, friends: true}}},
+		&c06Cfg{friends: alice, isolate: true, svcs: []c06Svc{{scheme: 0, port: 22, forEnt: []c06For{{ip: x2, raw: x2.String()}}}, {scheme: 0, port: 80, forEnt: []c06For{{ip: x3, raw: x3.String()}}}}},
+		&c06Cfg{svcs: []c06Svc{{scheme: 0, port: 443, public: true}, {scheme: 0, port: 22, forEnt: []c06For{{ip: x3, raw: x3.String()}}}}},
+	)
 	for i, n := 0, c.Pick(400, 4000); i < n; i++ {
 		g := genCfg()
 		if i < len(corners) {
@@ -316,7 +329,29 @@ func runC06(c *Ctx) error {
 			if len(good) < 64 {
 				good = append(good, g)
 			}
-			for k := 0; k < 40; k++ {
+			// corner configurations are probed systematically: every sender x {tcp, udp, icmp6} x (the
+			// services' ports, 0, 80, 443); the others by 40 random probes
+			type probeT struct {
+				proto, port int
+				sender      netip.Addr
+			}
+			var plan []probeT
+			if i < len(corners) {
+				pset := []int{0, 80, 443}
+				for _, sv := range g.svcs {
+					if sv.port >= 0 {
+						pset = append(pset, sv.port&0xFFFF)
+					}
+				}
+				for _, sn := range senders {
+					for _, pr := range []int{6, 17, 58} {
+						for _, po := range pset {
+							plan = append(plan, probeT{pr, po, sn.id.IP})
+						}
+					}
+				}
+			}
+			for k := 0; k < 40 || k < len(plan); k++ {
 				proto := protos[c.Rng.IntN(len(protos))]
 				if c.Rng.IntN(2) == 0 {
 					proto = []int{6, 17, 58}[c.Rng.IntN(3)]
@@ -331,6 +366,9 @@ func runC06(c *Ctx) error {
 					}
 				}
 				sender := senders[c.Rng.IntN(len(senders))].id.IP
+				if k < len(plan) {
+					proto, port, sender = plan[k].proto, plan[k].port, plan[k].sender
+				}
 				got := cfg.CheckInboundTrafficPolicy(uint8(proto), uint16(port), sender)
 				want := g.admitsSpec(proto, port, sender)
 				c.Eval()
